@@ -46,7 +46,40 @@ def _num_str(s, style):
     return f"({f.numerator}/{f.denominator})"
 
 
+PREC = {"add": 1, "sub": 1, "mul": 2, "div": 2, "neg": 1, "pow": 3, "num": 4, "var": 4}
+
+
+def render_min(e, style="frac"):
+    """the same expression with only the parentheses Python's operator precedence requires"""
+    t = e[0]
+    if t == "num":
+        s = _num_str(e[1], "frac" if style == "minimal" else style)
+        return s
+    if t == "var":
+        return e[1]
+
+    def child(c, need, right=False):
+        r = render_min(c, style)
+        pc = PREC[c[0]]
+        if c[0] == "num" and ("/" in r or r.startswith("(")):
+            pc = 2 if not r.startswith("(") else 4
+        if pc < need or (right and pc == need):
+            return r if r.startswith("(") and r.endswith(")") and r.count("(") == 1 else f"({r})"
+        return r
+
+    if t == "neg":
+        return f"0 - {child(e[1], 1, True)}"
+    if t == "pow":
+        return f"{child(e[1], 4)}**{int(e[2])}"
+    op = {"add": "+", "sub": "-", "mul": "*", "div": "/"}[t]
+    p = PREC[t]
+    return f"{child(e[1], p)} {op} {child(e[2], p, right=t in ('sub', 'div'))}"
+
+
 def render_expr(e, style="frac", top=True):
+    if style == "minimal":
+        r = render_min(e, style)
+        return r if top or e[0] in ("num", "var") and not ("/" in r or " " in r) else (r if r.startswith("(") and r.endswith(")") and r.count("(") == 1 else f"({r})")
     t = e[0]
     if t == "num":
         s = _num_str(e[1], style)
